@@ -647,8 +647,8 @@ pub fn property() -> Property {
             "Ok/Err returned by IncrementalEngine::retract is not judged; retract of an already absent handle must change nothing".into(),
         ],
         parts: vec![
-            Part { name: "engine-random", run: run_engine, quick: Budget::Random { cases: 400_000, bytes: 90 }, thorough: Budget::Random { cases: 10_000_000, bytes: 90 }, min_nontrivial_pct: 30 },
-            Part { name: "tms-random", run: run_tms, quick: Budget::Random { cases: 400_000, bytes: 90 }, thorough: Budget::Random { cases: 10_000_000, bytes: 90 }, min_nontrivial_pct: 30 },
+            Part { name: "engine-random", run: run_engine, quick: Budget::Random { cases: 3_000_000, bytes: 90 }, thorough: Budget::Random { cases: 15_000_000, bytes: 90 }, min_nontrivial_pct: 30 },
+            Part { name: "tms-random", run: run_tms, quick: Budget::Random { cases: 3_000_000, bytes: 90 }, thorough: Budget::Random { cases: 15_000_000, bytes: 90 }, min_nontrivial_pct: 30 },
             // exhNFP: every history of exactly N operations over <= F facts with <= P premises per justification
             Part { name: "engine-exh842", run: run_engine, quick: Budget::Exhaustive { param: 842 }, thorough: Budget::Skip, min_nontrivial_pct: 0 },
             Part { name: "tms-exh842", run: run_tms, quick: Budget::Exhaustive { param: 842 }, thorough: Budget::Skip, min_nontrivial_pct: 0 },
